@@ -4,6 +4,8 @@ import (
 	"os"
 	"strings"
 	"testing"
+
+	"pgregory.net/rapid"
 )
 
 func maxVersionKeys(w *World) int {
@@ -27,6 +29,9 @@ func backendsFor(def []string) []string {
 func knownCommon(w *World, v *Violation) string {
 	if w.F3Exposed && !w.Cfg.SkipFast && fastPathObserver(v.Obs) {
 		return "F3"
+	}
+	if w.F1Exposed && (strings.HasSuffix(v.Obs, ".hash") || strings.Contains(v.Obs, "proof.")) {
+		return "F1"
 	}
 	return ""
 }
@@ -54,23 +59,171 @@ var specC01 = &worldSpec{
 			(w.Labels["removal"] || w.Labels["reopen"] || w.Labels["prune"] || w.Labels["rollback"] || w.Labels["lvfo"] || w.Labels["dvf"])
 	},
 	Known: knownCommon,
+	After: trackMaxKeys,
+}
+
+func TestC01(t *testing.T) { runWorldSpec(t, withLevel(specC01)) }
+
+func trackMaxKeys(w *World, op Op) *Violation {
+	if n := len(w.WKV); n > w.Cnt["max_keys"] {
+		w.Cnt["max_keys"] = n
+	}
+	return nil
+}
+
+// ---------------------------------------------------------------- C02 canonical root hash
+var specC02 = &worldSpec{
+	Prop: "C02",
+	Profile: &Profile{MinSteps: 20, MaxSteps: 70,
+		W:        weights(map[string]int{"read": 22, "hop": 2, "setnil": 0, "remove": 16}),
+		Backends: []string{"mem", "mem", "trace", "prefix"}},
+	Obs:  Observers{Hash: true, NoStepWorkingHash: true},
+	Rule: "history of 20-70 steps incl. read-only calls applied to the real tree only (Get, Has, GetWithIndex, GetByIndex, Iterate, partial Iterator, GetProof/Membership/NonMembership on the working tree, GetVersionedProof, Hash, WorkingHash, ImmutableTree.Hash, GetVersioned, GetImmutable, partial Export), reopen/prune/rollback/export-import hops, InitialVersion in {unset,1,2,7,2^33}; WorkingHash, SaveVersion hash+version, Hash and the hash of every retained version are compared with the reference IAVL+ implementation after every step; non-trivial = reference performed >=1 rotation and >=1 removal, >=3 commits, >=1 read step while the working tree was dirty",
+	Nontrivial: func(w *World) bool {
+		return w.Cnt["rotations"] >= 1 && w.Cnt["removals"] >= 1 && w.Cnt["commits"] >= 3 && w.Labels["read_while_dirty"]
+	},
+	Known: knownCommon,
+}
+
+func TestC02(t *testing.T) { runWorldSpec(t, withLevel(specC02)) }
+
+// ---------------------------------------------------------------- C03 ICS-23 proofs
+var specC03 = &worldSpec{
+	Prop: "C03",
+	Profile: &Profile{MinSteps: 12, MaxSteps: 40,
+		W:        weights(map[string]int{"setnil": 0, "lvfo": 1, "dvf": 1, "prune": 5}),
+		Backends: []string{"mem"}},
+	Obs:  Observers{Proofs: true},
+	Rule: "history of 12-40 steps; after every step, for every retained non-empty version and the working tree and every probe key (all present keys; absent: below min, above max, neighbours, prefixes, extensions) the proof of the right kind must be produced and must verify with ics23.Verify(Non)Membership(IavlSpec) against the REFERENCE root; it must not verify for another value, another key, the opposite claim or the reference root of another retained version in which the claim is false; wrong-kind requests must error. non-trivial = some version with >=2 keys, both proof kinds exercised, and a proof path with nodes of >=2 versions; distinct = sha256 of the history",
+	Nontrivial: func(w *World) bool {
+		return w.Cnt["max_keys"] >= 2 && w.Cnt["membership_proofs"] > 0 && w.Cnt["nonmembership_proofs"] > 0 && w.Labels["proof_path_multi_version"]
+	},
+	Known: knownCommon,
 	After: func(w *World, op Op) *Violation {
-		if n := len(w.WKV); n > w.Cnt["max_keys"] {
-			w.Cnt["max_keys"] = n
+		trackMaxKeys(w, op)
+		return w.checkWorkingProofs()
+	},
+}
+
+func TestC03(t *testing.T) { runWorldSpec(t, withLevel(specC03)) }
+
+// ---------------------------------------------------------------- C04 pruning safety
+var pruneWeights = map[string]int{"set": 22, "remove": 12, "save": 30, "prune": 14, "prune_refuse": 3, "rollback": 3, "reopen": 6, "lvfo": 4, "dvf": 2, "setnil": 0}
+
+var specC04 = &worldSpec{
+	Prop: "C04",
+	Profile: &Profile{MinSteps: 15, MaxSteps: 50, W: weights(pruneWeights),
+		Backends: []string{"trace", "trace", "mem", "prefix"}},
+	Obs:  Observers{Reads: true, Hash: true, Proofs: true, Fresh: true},
+	Rule: "history of 15-50 steps biased to commits without writes, empty and 1-leaf versions, rollbacks, cold-cache reopens and flush thresholds 150/300/1000/100000; DeleteVersionsTo(n) for n in [first-1, base-1] plus refusal probes n in {latest, latest+1} (error + byte-identical store); after every step all retained versions are re-checked (contents, hash, proofs against reference roots) through the live handle and after each prune/rollback through a fresh handle; deleted versions must be unavailable. non-trivial = a prune that deleted >=1 version adjacent to a no-op/empty/1-leaf version or whose writes were split over >=2 physical batch writes",
+	Nontrivial: func(w *World) bool { return w.Labels["prune_special"] || w.Labels["prune_split"] },
+	Known:      knownCommon,
+	After:      trackMaxKeys,
+}
+
+func TestC04(t *testing.T) { runWorldSpec(t, withLevel(specC04)) }
+
+// ---------------------------------------------------------------- C07 fast index coherence
+var specC07 = &worldSpec{
+	Prop: "C07",
+	Profile: &Profile{MinSteps: 15, MaxSteps: 60,
+		W:        weights(map[string]int{"reopen": 16, "setnil": 0, "hop": 1, "remove": 16, "lvfo": 5, "dvf": 3}),
+		Backends: []string{"mem", "mem", "trace", "prefix"}},
+	Obs:  Observers{Fast: true, Reads: true},
+	Rule: "history of 15-60 steps where every (re)open independently draws fast index on/off and the version to load, interleaved with writes, removals (incl. set+remove inside one version), commits, rollbacks, pruning and import hops; after every step Get == GetWithIndex == model for every probe key, MutableTree.Iterator/Iterate == ImmutableTree.IterateRange == model (both directions), GetVersioned == GetImmutable(v).GetWithIndex == model, and whenever the live handle has the index enabled the raw f-entries decoded independently equal the model's latest map exactly with label 1.1.0-<latest>. non-trivial = a (re)open that changed the fast setting or loaded a non-latest version, with a committed write before and after it",
+	Nontrivial: func(w *World) bool {
+		return (w.Labels["fast_toggle"] || w.Labels["reopen_old"]) && w.Cnt["writing_commits"] >= 2 && w.Labels["write_after_reopen"]
+	},
+	Known: knownCommon,
+	After: func(w *World, op Op) *Violation {
+		if op.Kind == "save" && (w.Labels["fast_toggle"] || w.Labels["reopen_old"]) {
+			w.Labels["write_after_reopen"] = true
 		}
 		return nil
 	},
 }
 
-func TestC01(t *testing.T) {
-	s := *specC01
-	p := *s.Profile
-	p.Backends = backendsFor(p.Backends)
-	s.Profile = &p
-	runWorldSpec(t, &s)
+func TestC07(t *testing.T) { runWorldSpec(t, withLevel(specC07)) }
+
+// ---------------------------------------------------------------- C12 storage == reachable nodes
+var specC12 = &worldSpec{
+	Prop: "C12",
+	Profile: &Profile{MinSteps: 15, MaxSteps: 55, W: weights(mergeW(pruneWeights, map[string]int{"hop": 2, "lvfo": 5, "dvf": 3})),
+		Backends: []string{"mem", "mem", "trace", "prefix"}},
+	Obs:  Observers{Audit: true, Light: true},
+	Rule: "crash-free history of 15-55 steps (C04 profile + imports) with synchronous pruning; after every step the raw s-entries (decoded by the independent codec) are compared with the set reachable from the root markers of the model's retained versions following stored child links: nothing missing, nothing unreachable, no root key of a non-retained version; f-entries == latest map when the live handle has the index enabled; at the end every key is removed, committed and older versions pruned: exactly the empty root marker may remain. non-trivial = a prune or rollback that removed >=1 stored node while >=2 versions stayed retained",
+	Nontrivial: func(w *World) bool { return w.Labels["deleted_nodes_with_ge2_retained"] },
+	Known:      knownCommon,
+	After: func(w *World, op Op) *Violation {
+		n := 0
+		for k := range w.rawDump() {
+			if k[0] == 's' {
+				n++
+			}
+		}
+		if (op.Kind == "prune" || op.Kind == "lvfo" || op.Kind == "dvf") && n < w.Cnt["last_s_count"] && len(w.Vers) >= 2 {
+			w.Labels["deleted_nodes_with_ge2_retained"] = true
+		}
+		w.Cnt["last_s_count"] = n
+		return nil
+	},
+	End: func(t *rapid.T, w *World) *Violation { return w.drainToEmpty() },
 }
 
-var allSpecs = []*worldSpec{specC01}
+func TestC12(t *testing.T) { runWorldSpec(t, withLevel(specC12)) }
+
+// ---------------------------------------------------------------- C13a lib -> independent decoder
+var specC13 = &worldSpec{
+	Prop: "C13",
+	Profile: &Profile{MinSteps: 12, MaxSteps: 45, W: weights(map[string]int{"save": 24, "hop": 1}),
+		Backends: []string{"mem", "mem", "prefix"}},
+	Obs:  Observers{Fields: true, Light: true},
+	Rule: "(a) history of 12-45 steps; after every step the independent decoder reads the raw store and must reproduce, per retained version, exactly the reference tree: keys, values, heights, sizes, node versions (= key version), hashes of inner nodes, child links, root markers (node | 13-byte reference | empty); node keys must sort numerically by (version, nonce). non-trivial = >=1 inner node and >=1 reference or empty root on disk",
+	Nontrivial: func(w *World) bool {
+		return w.Labels["inner_on_disk"] && (w.Labels["ref_root_on_disk"] || w.Labels["empty_root_on_disk"])
+	},
+	Known: knownCommon,
+	After: func(w *World, op Op) *Violation { return w.checkKeyOrder() },
+}
+
+func TestC13a(t *testing.T) { runWorldSpec(t, withLevel(specC13)) }
+
+// ---------------------------------------------------------------- C14 version bookkeeping
+var specC14 = &worldSpec{
+	Prop: "C14",
+	Profile: &Profile{MinSteps: 15, MaxSteps: 55, W: weights(mergeW(pruneWeights, map[string]int{"reopen": 12, "save": 26})),
+		Backends: []string{"mem", "mem", "trace", "prefix"}},
+	Obs:  Observers{Versions: true, Fresh: true, Light: true},
+	Rule: "history of 15-55 steps (C04 profile + InitialVersion unset/1/2/7/2^33, reopen at older versions and re-commit); after every step and through a fresh handle after prune/rollback: commit numbers consecutive from 1 or InitialVersion; VersionExists(v), GetImmutable(v), GetVersioned(k,v), LoadVersion(v) on a throw-away handle for every v in {0,1} U [first-ever-1, latest+1], AvailableVersions, GetLatestVersion agree with the model range; re-commit of an existing number succeeds without effect iff the reference hashes are equal, else errors with a byte-identical store. non-trivial = >=1 prune or rollback of versions and >=1 reopen",
+	Nontrivial: func(w *World) bool {
+		return (w.Labels["prune"] || w.Labels["rollback_versions"]) && w.Labels["reopen"]
+	},
+	Known: knownCommon,
+	After: func(w *World, op Op) *Violation { return w.checkLoadEach() },
+}
+
+func TestC14(t *testing.T) { runWorldSpec(t, withLevel(specC14)) }
+
+func mergeW(a, b map[string]int) map[string]int {
+	m := map[string]int{}
+	for k, v := range a {
+		m[k] = v
+	}
+	for k, v := range b {
+		m[k] = v
+	}
+	return m
+}
+
+func withLevel(s *worldSpec) *worldSpec {
+	c := *s
+	p := *s.Profile
+	p.Backends = backendsFor(p.Backends)
+	c.Profile = &p
+	return &c
+}
+
+var allSpecs = []*worldSpec{specC01, specC02, specC03, specC04, specC07, specC12, specC13, specC14}
 
 func registerAllSpecs() {
 	for _, s := range allSpecs {
